@@ -69,8 +69,17 @@ def handle : Handler
       some (exc (do
         let e ← builderEnviron o path base qs
         let r ← requestView o e
+        -- wsgi.get_current_url(environ) for the flag combinations, and the Request properties
+        let w1 ← wsgiCurrentUrl o e false false false
+        let w2 ← wsgiCurrentUrl o e false true false
+        let w3 ← wsgiCurrentUrl o e true false false
+        let w4 ← wsgiCurrentUrl o e false false true
+        let w5 ← wsgiCurrentUrl o e true true true
+        let (u1, u2, u3, u4) ← requestUrls o e
         pure (",".intercalate [hexStr e.pathInfo, hexStr e.scriptName, hexStr e.queryString, hexStr e.httpHost,
-          hexStr e.urlScheme] ++ "|" ++ ",".intercalate [hexStr r.path, hexStr r.rootPath, hexStr r.host, hexStr r.url])))
+          hexStr e.urlScheme] ++ "|" ++ ",".intercalate [hexStr r.path, hexStr r.rootPath, hexStr r.host, hexStr r.url]
+          ++ "|" ++ ",".intercalate [hexStr w1, hexStr w2, hexStr w3, hexStr w4, hexStr w5]
+          ++ "|" ++ ",".intercalate [hexStr u1, hexStr u2, hexStr u3, hexStr u4])))
     | _, _, _, _, _, _, _, _, _ => some badArgs
   | "urlunsplit", [a, b, c, d, e] =>
     match unhexStr a, unhexStr b, unhexStr c, unhexStr d, unhexStr e with
